@@ -114,6 +114,7 @@ func stubGenerate(subject string, dnsNames []string, ipAddresses []net.IP, lifes
 	genKey = pemish(2)
 	return genCert, genKey, tls.Certificate{Certificate: [][]byte{{2}}, Leaf: &x509.Certificate{}}, nil
 }
+
 // stubPemDecode: encoding/pem's contract: the first PEM block and the rest, or a nil block and
 // the whole input when no PEM data is found.
 func stubPemDecode(data []byte) (*pem.Block, []byte) {
